@@ -21,7 +21,7 @@ extern "C" {
 static inline void apply_env(const Json & op) {
 	const Json & e = op.at("env");
 	if (e.is_obj()) {
-		if (e.has("clock")) g_sim.clock_now = e.geti("clock");
+		if (e.has("clock")) { g_sim.clock_now = e.geti("clock"); g_sim.clock_start = g_sim.clock_now; }
 		g_sim.clock_step = e.geti("clock_step", 0);
 		if (e.has("rand")) g_sim.rand_state = (uint64_t)e.geti("rand");
 	}
@@ -39,6 +39,11 @@ static inline Json gen_env(Rng & r) {
 		e["clock"] = special[r.below(sizeof(special) / sizeof(special[0]))] + (r.chance(1, 2) ? 0 : r.range(-86400, 86400));
 		if ((int64_t)e.geti("clock") < 315532800LL) e["clock"] = 315532800LL;
 		if ((int64_t)e.geti("clock") > 4354819199LL) e["clock"] = 4354819199LL;
+	}
+	if (r.chance(1, 10)) {
+		// a machine whose clock was never set, the last second before the DOS epoch, the first one after the last DOS date, a far future
+		static const int64_t outside[] = {0LL, 1LL, 99999999LL /*1973*/, 315532799LL /*1979-12-31 23:59:59*/, 4354819200LL /*2108-01-01*/, 4420000000LL /*2110*/};
+		e["clock"] = outside[r.below(6)];
 	}
 	if (r.chance(1, 5)) e["clock_step"] = r.range(-100000, 100000);
 	e["rand"] = (int64_t)(r.next() >> 2);
